@@ -128,11 +128,18 @@ pub fn run(tier: &str, seed: u64, replay: Option<String>) -> i32 {
         all.extend(diskrun::jobs_for(f, vs, 1, false, false));
     }
     let n_cells = all.iter().map(|j| j.cell.clone()).collect::<BTreeSet<_>>().len();
-    let selected: Vec<DJob> = if thorough {
+    // quick: 3 per cell; thorough: up to VERIF_C19_PER_CELL (default 150) per cell, which covers
+    // most cells completely; VERIF_C19_FULL=1: every variant (hours)
+    let per_cell_thorough: usize = std::env::var("VERIF_C19_PER_CELL").ok().and_then(|s| s.parse().ok()).unwrap_or(150);
+    let n_all = all.len();
+    let selected: Vec<DJob> = if thorough && full {
         all
+    } else if thorough {
+        diskrun::stratified(all, per_cell_thorough, &mut rng)
     } else {
         diskrun::stratified(all, 3, &mut rng)
     };
+    let enumerated_completely = selected.len() == n_all;
     // side files also end to end (damaged file next to its intact project)
     let mut e2e_jobs: Vec<DJob> = selected
         .iter()
@@ -326,7 +333,7 @@ pub fn run(tier: &str, seed: u64, replay: Option<String>) -> i32 {
     extra.insert("simulated_time".into(), json!("n/a - no timers or deadlines in the system; cases reported instead"));
     extra.insert("components".into(), report::components());
     extra.insert("files".into(), json!(files.len()));
-    let exhaustive = thorough && full;
+    let exhaustive = thorough && enumerated_completely;
     Evidence {
         property: "C19".into(),
         tier: tier.into(),
@@ -334,7 +341,7 @@ pub fn run(tier: &str, seed: u64, replay: Option<String>) -> i32 {
         level: "fault_enumeration".into(),
         evaluations,
         distinct_nontrivial: distinct,
-        rule: "every line of every shipped .ctehexml/.cte/KyG/.tbl file x edit kinds {line deleted, duplicated, truncated after (thorough: mid-line), block removed, quoted name renamed, number->text, number->out-of-range value, thorough: byte flip, CRLF flip}; thorough runs all of them (one out-of-range value per numeric token, round-robin; VERIF_C19_FULL=1 runs the cross product), quick a seeded sample of 3 per (file kind x block type x attribute x edit kind) cell. A case is non-trivial and distinct when the damaged text differs from the shipped file and its content hash differs from every other variant run at the same level".into(),
+        rule: "every line of every shipped .ctehexml/.cte/KyG/.tbl file x edit kinds {line deleted, duplicated, truncated after (thorough: mid-line), block removed, quoted name renamed, number->text, number->out-of-range value, thorough: byte flip, CRLF flip}; thorough runs up to 150 per (file kind x block type x attribute x edit kind [x out-of-range value]) cell (VERIF_C19_PER_CELL; most cells are then complete; VERIF_C19_FULL=1 runs every variant), quick a seeded sample of 3 per cell. A case is non-trivial and distinct when the damaged text differs from the shipped file and its content hash differs from every other variant run at the same level".into(),
         samples,
         exhaustive,
         extra,
